@@ -33,78 +33,130 @@ UNITS_V1 = ALPHABET + ["[", "]"]               # legacy patterns have no bracket
 
 
 def _extract_model(ctx, fq: str) -> T.Dict[str, T.Any]:
+    """Extract the escaping pipeline of a _compile_pattern_re as a list of constant string operations:
+    ('replace', old, new) and ('sub', regex, replacement).  Loops over folded tables are unrolled, guards are
+    constant-folded per iteration.  Anything else is outside the model (ANALYSIS-ERROR)."""
     prog = ctx.prog
     fn = prog.function(fq)
     ctx.visit(fq)
-    loops = [n for n in walk_no_nested(fn.node) if isinstance(n, ast.For)]
-    ctx.require(len(loops) == 1, f"{fq}: expected one escape loop")
-    lp = loops[0]
-    ctx.require(isinstance(lp.target, ast.Tuple) and len(lp.target.elts) == 2 and all(isinstance(e, ast.Name) for e in lp.target.elts),
-                f"{fq}: escape loop target is not (char, escaped)")
-    c_name, e_name = lp.target.elts[0].id, lp.target.elts[1].id
-    it = prog.resolve_name(fn.module, lp.iter)
-    table = prog.fold(fn.module, lp.iter)
-    ctx.require(isinstance(table, list) and all(isinstance(t, tuple) and len(t) == 2 for t in table), f"{fq}: escape table shape")
-    # body: [if not <exempt>:] X = X.replace(char, escaped)
-    body = lp.body
-    exempt: T.Set[str] = set()
-    assigns = [n for n in ast.walk(lp) if isinstance(n, ast.Assign) and isinstance(n.value, ast.Call)
-               and isinstance(n.value.func, ast.Attribute) and n.value.func.attr == "replace"]
-    ctx.require(len(assigns) == 1, f"{fq}: expected exactly one .replace() in the escape loop")
-    a = assigns[0]
-    tgt = a.targets[0]
-    ctx.require(isinstance(tgt, ast.Name) and unparse(a.value.func.value) == tgt.id and [unparse(x) for x in a.value.args] == [c_name, e_name],
-                f"{fq}: escape step is not `s = s.replace(char, escaped)`")
-    run_var = tgt.id
-    # guards on the replace
-    conds: T.List[T.Tuple[ast.AST, bool]] = []
+    mod = fn.module
+    steps: T.List[T.Tuple[str, str, str]] = []
+    running = {fn.params[0]}
+    info: T.Dict[str, T.Any] = {"table_loops": [], "exempt": set(), "final": None, "flags": False, "compile": None, "fn": fn}
 
-    def find(stmts: T.List[ast.stmt], acc: T.List[T.Tuple[ast.AST, bool]]) -> bool:
+    def fold(e: ast.AST, env: T.Dict[str, T.Any]) -> T.Any:
+        return prog.fold(mod, e, env)
+
+    def transform_of(e: ast.AST, env: T.Dict[str, T.Any]) -> T.Optional[T.Tuple[str, T.Tuple[str, str, str]]]:
+        """If e transforms a running variable return (that variable, step)."""
+        if isinstance(e, ast.Subscript) and isinstance(e.slice, ast.Constant) and e.slice.value == 0:
+            e = e.value      # re.subn(...)[0]
+        if not isinstance(e, ast.Call):
+            return None
+        f = e.func
+        if isinstance(f, ast.Attribute) and f.attr == "replace" and isinstance(f.value, ast.Name) and f.value.id in running and len(e.args) == 2:
+            return f.value.id, ("replace", fold(e.args[0], env), fold(e.args[1], env))
+        if unparse(f) in ("re.sub", "re.subn") and len(e.args) >= 3 and isinstance(e.args[2], ast.Name) and e.args[2].id in running and not e.keywords and len(e.args) == 3:
+            return e.args[2].id, ("sub", fold(e.args[0], env), fold(e.args[1], env))
+        if isinstance(f, ast.Attribute) and f.attr in ("sub", "subn") and isinstance(f.value, ast.Name) and len(e.args) == 2 and isinstance(e.args[1], ast.Name) and e.args[1].id in running:
+            node = prog.const_node(mod.name, f.value.id) if f.value.id in mod.consts else None
+            if isinstance(node, ast.Call) and unparse(node.func) == "re.compile" and len(node.args) == 1 and not node.keywords:
+                return e.args[1].id, ("sub", fold(node.args[0], {}), fold(e.args[0], env))
+        return None
+
+    def run(stmts: T.List[ast.stmt], env: T.Dict[str, T.Any]) -> None:
         for st in stmts:
-            if st is a:
-                conds.extend(acc)
-                return True
+            if isinstance(st, ast.Expr):
+                continue
+            if isinstance(st, (ast.Assign, ast.AnnAssign)):
+                tgt = st.targets[0] if isinstance(st, ast.Assign) else st.target
+                val = st.value
+                if val is None:
+                    continue
+                if isinstance(tgt, ast.Tuple) and isinstance(val, ast.Call) and unparse(val.func) == "re.subn" and isinstance(tgt.elts[0], ast.Name):
+                    tr = transform_of(val, env)
+                    if tr:
+                        steps.append(tr[1])
+                        running.add(tgt.elts[0].id)
+                        continue
+                ctx.require(isinstance(tgt, ast.Name), f"{fq}: assignment target `{unparse(tgt)}` outside the model")
+                if isinstance(val, ast.Name) and val.id in running:
+                    running.add(tgt.id)
+                    continue
+                tr = transform_of(val, env)
+                if tr is not None:
+                    steps.append(tr[1])
+                    running.add(tgt.id)
+                    continue
+                if isinstance(val, ast.Call) and unparse(val.func) == "_replace_pattern_parts" and len(val.args) == 1 and isinstance(val.args[0], ast.Name) and val.args[0].id in running:
+                    info["final"] = tgt.id
+                    continue
+                try:
+                    env[tgt.id] = fold(val, env)
+                except AnalysisError:
+                    raise AnalysisError(f"{fq}: statement `{unparse(st)[:70]}` is outside the escaping model")
+                continue
+            if isinstance(st, ast.For):
+                items = fold(st.iter, env)
+                is_table = unparse(st.iter) == "RE_PATTERN_ESCAPES"
+                if is_table:
+                    info["table_loops"].append(st)
+                for item in items:
+                    env2 = dict(env)
+                    if isinstance(st.target, ast.Tuple):
+                        for t, v in zip(st.target.elts, item):
+                            env2[t.id] = v
+                    else:
+                        env2[st.target.id] = item
+                    before = len(steps)
+                    run(st.body, env2)
+                    if is_table and len(steps) == before:
+                        info["exempt"].add(item[0])
+                continue
             if isinstance(st, ast.If):
-                if find(st.body, acc + [(st.test, True)]) or find(st.orelse, acc + [(st.test, False)]):
-                    return True
-            if isinstance(st, ast.Continue):
-                pass
-        return False
-    ctx.require(find(body, []), f"{fq}: replace statement not found in loop body")
-    breaks = [n for n in ast.walk(lp) if isinstance(n, (ast.Break, ast.Continue, ast.Return))]
-    ctx.require(not breaks, f"{fq}: escape loop contains break/continue/return (shape not enumerated)")
-    for test, pol in conds:
-        t = shapes.resolve_alias(fn, test)
-        neg = not pol
-        while isinstance(t, ast.UnaryOp) and isinstance(t.op, ast.Not):
-            neg = not neg
-            t = shapes.resolve_alias(fn, t.operand)
-        ok = isinstance(t, ast.Compare) and len(t.ops) == 1 and isinstance(t.ops[0], (ast.In, ast.NotIn)) and unparse(t.left) == c_name
-        ctx.require(ok, f"{fq}: escape guard `{unparse(test)}` is not a membership test on the character")
-        chars = prog.fold(fn.module, t.comparators[0])
-        is_in = isinstance(t.ops[0], ast.In)
-        # replace happens when (char in chars) == (is_in != neg) ... compute exempt set
-        applies_when_in = (is_in and not neg) or (not is_in and neg)
-        ctx.require(not applies_when_in, f"{fq}: escape guard applies the table only to listed characters (shape not enumerated)")
-        exempt |= set(chars)
-    # the running variable starts as the parameter and ends in _replace_pattern_parts -> re.compile
-    init = [n for n in walk_no_nested(fn.node) if isinstance(n, ast.Assign) and isinstance(n.targets[0], ast.Name) and n.targets[0].id == run_var and n is not a]
-    ctx.require(len(init) == 1 and unparse(init[0].value) == fn.params[0], f"{fq}: running string does not start as the pattern parameter")
-    comp = [c for c in ast.walk(fn.node) if isinstance(c, ast.Call) and unparse(c.func) == "re.compile"]
-    ctx.require(len(comp) == 1, f"{fq}: expected one re.compile")
-    flags = len(comp[0].args) > 1 or bool(comp[0].keywords)
-    rp = [c for c in ast.walk(fn.node) if isinstance(c, ast.Call) and unparse(c.func) == "_replace_pattern_parts"]
-    ctx.require(len(rp) == 1 and unparse(rp[0].args[0]) == run_var, f"{fq}: escaped string is not what _replace_pattern_parts receives")
-    ok_flow = shapes.flows_from(fn, comp[0].args[0], lambda e: e is rp[0])
-    ctx.require(ok_flow, f"{fq}: re.compile does not receive the result of _replace_pattern_parts")
-    return {"table": table, "exempt": exempt, "flags": flags, "fn": fn, "compile": comp[0]}
+                try:
+                    cond = bool(_fold_guard(prog, fn, st.test, env))
+                except AnalysisError:
+                    raise AnalysisError(f"{fq}: guard `{unparse(st.test)[:60]}` is not a constant test on the table character")
+                run(st.body if cond else st.orelse, env)
+                continue
+            if isinstance(st, ast.Return):
+                v = st.value
+                ctx.require(isinstance(v, ast.Call) and unparse(v.func) == "re.compile", f"{fq}: does not return re.compile(...)")
+                info["compile"] = v
+                info["flags"] = len(v.args) > 1 or bool(v.keywords)
+                arg = v.args[0]
+                if isinstance(arg, ast.Call) and unparse(arg.func) == "_replace_pattern_parts" and isinstance(arg.args[0], ast.Name) and arg.args[0].id in running:
+                    info["final"] = "<inline>"
+                else:
+                    ctx.require(isinstance(arg, ast.Name) and arg.id == info["final"], f"{fq}: re.compile does not receive the result of _replace_pattern_parts")
+                continue
+            raise AnalysisError(f"{fq}: statement `{unparse(st)[:70]}` is outside the escaping model")
+
+    body = [st for st in fn.node.body if not (isinstance(st, ast.Expr) and isinstance(st.value, ast.Constant))]
+    run(body, {})
+    ctx.require(info["final"] is not None and info["compile"] is not None, f"{fq}: escaped text does not reach _replace_pattern_parts / re.compile")
+    info["steps"] = steps
+    return info
+
+
+def _fold_guard(prog, fn, test: ast.AST, env: T.Dict[str, T.Any], depth: int = 0) -> T.Any:
+    if isinstance(test, ast.Name) and test.id in env:
+        return env[test.id]
+    if isinstance(test, ast.BoolOp):
+        vals = [_fold_guard(prog, fn, v, env, depth) for v in test.values]
+        return all(vals) if isinstance(test.op, ast.And) else any(vals)
+    if isinstance(test, ast.UnaryOp) and isinstance(test.op, ast.Not):
+        return not _fold_guard(prog, fn, test.operand, env, depth)
+    return prog.fold(fn.module, test, env)
 
 
 def _escape(model: T.Dict[str, T.Any], s: str) -> str:
-    for char, escaped in model["table"]:
-        if char in model["exempt"]:
-            continue
-        s = s.replace(char, escaped)
+    for kind, a, b in model["steps"]:
+        if kind == "replace":
+            s = s.replace(a, b)
+        else:
+            s = re.sub(a, b, s)
     return s
 
 
@@ -150,6 +202,7 @@ def run(ctx) -> None:
     ctx.rule("R3", "the table is applied completely, once, with no regex flags; backslash first where it is not exempt")
     ctx.rule("R4", "exempted characters are consumed by a dedicated step (bracket look-behind; backslash)")
     ctx.rule("R5", "rendering inverts the escapes and drops anchors")
+    ctx.rule("R6", "pattern text from setup.cfg reaches the compiler verbatim (no %-interpolation in the INI reader)")
 
     table = prog.const("patterns", "RE_PATTERN_ESCAPES")
     ctx.floor("R2", "escape table entries", len(table), 12)
@@ -167,10 +220,12 @@ def run(ctx) -> None:
         fn = model["fn"]
         ctx.check("R3", not model["flags"], f"{fq}: re.compile without flags (no VERBOSE/IGNORECASE)",
                   f"{fq}: pattern compiled with regex flags", unparse(model["compile"]), loc=fn.loc(model["compile"]))
-        ctx.check("R3", model["table"] == table, f"{fq}: loops over the whole RE_PATTERN_ESCAPES table",
-                  f"{fq}: escape loop does not iterate the shared table", "", loc=fn.loc())
-        if "\\" not in model["exempt"]:
-            bs = [i for i, (c, _) in enumerate(model["table"]) if c == "\\"]
+        if model["table_loops"]:
+            ctx.ok("R3", f"{fq}: escapes by looping over the shared RE_PATTERN_ESCAPES table ({len(model['steps'])} steps after guard folding)")
+        else:
+            ctx.observe(f"{fq}: escaping is not driven by RE_PATTERN_ESCAPES; decided by the exhaustive string check only ({len(model['steps'])} steps)")
+        if model["table_loops"] and "\\" not in model["exempt"]:
+            bs = [i for i, (c, _) in enumerate(table) if c == "\\"]
             ctx.check("R3", bs == [0], f"{fq}: backslash entry comes first (no double escaping)",
                       f"{fq}: backslash is escaped after other entries (their backslashes get doubled)", f"index {bs}", loc="src/bumpver/patterns.py")
         expect_exempt = set("[]\\") if eng == "v2" else set()
@@ -265,3 +320,15 @@ def run(ctx) -> None:
     for src, dst in (("\\[", "["), ("\\]", "]"), ("^", ""), ("$", "")):
         ctx.check("R5", reps.get(src) == dst, f"_format_segment renders {src!r} as {dst!r}",
                   f"v2version._format_segment: {src!r} is not rendered as {dst!r}", f"replacements: {reps}", loc=fs.loc())
+
+    # ---------------------------------------------------------------- R6
+    cp = prog.klass("config._ConfigParser")
+    raw = any(b.endswith("RawConfigParser") for b in cp.bases)
+    used = [c for c in ast.walk(prog.function("config._parse_cfg").node) if isinstance(c, ast.Call) and unparse(c.func) in ("_ConfigParser", "configparser.RawConfigParser", "configparser.ConfigParser")]
+    ctx.require(len(used) == 1, "_parse_cfg: parser construction not found")
+    no_interp = any(kw.arg == "interpolation" and isinstance(kw.value, ast.Constant) and kw.value.value is None for kw in used[0].keywords)
+    is_raw = (unparse(used[0].func) == "_ConfigParser" and raw) or unparse(used[0].func).endswith("RawConfigParser")
+    ctx.check("R6", is_raw or no_interp, "INI reader is a RawConfigParser (or interpolation=None): '%' in a search pattern is literal text",
+              "config._ConfigParser enables %-interpolation: '%' in a setup.cfg search pattern is not matched literally",
+              f"bases {cp.bases}; a pattern such as `%define ver {{version}}` raises InterpolationSyntaxError, `100%% {{version}}` loses a '%'", loc="src/bumpver/config.py",
+              witness={"setup.cfg pattern": "progress 100%% v{version}"})
